@@ -12,13 +12,15 @@ from .predutil import PredictWorld, eq_rec, ge_rec, shapes, std_replay
 PROP = "C09"
 
 
-def unit(model, sizes):
+def unit(model, sizes, generic=False):
+    """generic: sizes = (1,)*n and every team has a symbolic number of members (the listed member is
+    the arbitrary one, the aggregates are symbols): the same obligations for teams of every size"""
     recs = []
     n = len(sizes)
-    shape = f"sizes={sizes}"
+    shape = f"sizes={sizes}" if not generic else f"n={len(sizes)},any-team-size"
     fn = f"{model}.predict_win"
     rp = std_replay("c09_win", model, sizes)
-    W = PredictWorld(model, sizes)
+    W = PredictWorld(model, sizes, generic=generic)
     base = W.run("predict_win")
     if base[0] != "return" or len(base[1]) != n:
         return [driver.rec(f"C09/{model}/predict_win/len@{shape}", "refuted", "explorer", 0, fn=fn, shape=shape, replay=rp, note=repr(base[1])[:200])]
@@ -68,7 +70,7 @@ def unit(model, sizes):
                 recs.append(ge_rec(P, f"C09/{model}/predict_win/monotone-other[{i}->{k}]@{shape}", p[k], q[k], fn, shape, rp, extra=mono))
     # identical teams (first and last carry the same symbols)
     if sizes[0] == sizes[-1]:
-        W2 = PredictWorld(model, sizes, identical=[(0, n - 1)])
+        W2 = PredictWorld(model, sizes, identical=[(0, n - 1)], generic=generic)
         o2 = W2.run("predict_win")
         o3 = W2.run("predict_win", alias={n - 1: 0})       # the same list object in two slots
         P2 = W2.prover()
@@ -84,13 +86,13 @@ def unit(model, sizes):
             r2 = eq_rec(P2, f"C09/{model}/predict_win/two-identical-half[1]@{shape}", term(o2[1][1]), half, fn, shape, rp)
             recs += [r, r2]
     from .predutil import history_records
-    if n <= 3:
+    if n <= 3 and not generic:
         recs += history_records("C09", W, model, sizes, ("predict_win",))
     return recs
 
 
 def units(tier):
-    return [("unit", (m, s)) for m in extract.MODELS for s in shapes(tier, nmax=4 if tier == "quick" else 6)]
+    return [("unit", (m, s)) for m in extract.MODELS for s in shapes(tier, nmax=4 if tier == "quick" else 6)] + [("unit", (m, (1,) * n, True)) for m in extract.MODELS for n in range(2, (4 if tier == "quick" else 6) + 1)]
 
 
 def main(tier, seed):
@@ -101,11 +103,12 @@ def main(tier, seed):
         PROP, tier, seed, "other", records, errors, walls, t0,
         functions=fns,
         assumptions=[
+            __import__("pyvc.props.anysize", fromlist=["A_SUM"]).A_SUM,
             "A-Phi: 0 < Phi < 1, Phi(x) + Phi(-x) = 1, Phi(0) = 1/2, Phi monotone (instances); phi_major enters as Phi (C17)",
             "A-fp: reals; 'to floating-point accuracy' and the float statement 'exactly one half' are not decided (the real-valued identity p = 1/2 is)",
             "sigma >= 0, beta > 0; shape-bounded (coverage.shapes)",
         ],
         explanation=("The real predict_win is executed on symbolic teams (several executions on the same symbols: base, every adjacent transposition of the teams, a member's mu raised by a symbolic d >= 0, identical teams); "
                      "length, range, sum = 1, permutation equivariance and identical-team equality are exact normal-form identities (Phi reflection made syntactic), monotonicity is proved by z3 over the canonical atoms with Phi-monotonicity instances."),
-        shapes=[str(s) for s in shapes(tier, nmax=4 if tier == "quick" else 6)],
+        shapes=[str(s) for s in shapes(tier, nmax=4 if tier == "quick" else 6)] + [f"n=2..{4 if tier == 'quick' else 6} teams of every size (symbolic member counts)"],
     )
